@@ -19,25 +19,33 @@ namespace Carquet.Properties.C05
 open Carquet.Impl Carquet.Impl.Writer Carquet.Impl.FileReal
 open Carquet.Spec Carquet.Proofs.SpecWriter Carquet.Proofs.WriterTable
 
-/-- The schema: at least one column; flat REQUIRED / OPTIONAL columns; a FIXED_LEN_BYTE_ARRAY column
-has a positive length; and the schema fits the C structures and the Thrift parser's limits (fewer
-than 10000 columns, names that are C strings — NUL-free, shorter than 2^31 —, `type_length` an
-`int32_t`). -/
+/-- The schema: at least one column; flat REQUIRED / OPTIONAL / REPEATED columns (everything
+`carquet_schema_add_column` can build at the top level); a FIXED_LEN_BYTE_ARRAY column has a positive
+length; and the schema fits the C structures and the Thrift parser's limits (fewer than 10000
+columns, names that are C strings — NUL-free, shorter than 2^31 —, `type_length` an `int32_t`). -/
 structure SchemaOk (cols : List Col) : Prop where
   nonEmpty : cols ≠ []
   colsOk : ∀ c ∈ cols, ColOk c
   small : SchemaSmall cols
 
 /-- The history respects the documented preconditions of `carquet_writer_write_batch`: the arrays
-hold what the counts say (`HistWF`, `BatchOk`: one definition level ≤ 1 per row for OPTIONAL, as many
-dense values as non-null rows, every value a PLAIN bit pattern of the column's type — BOOLEAN one
-byte 0 / 1, BYTE_ARRAY shorter than 2^31), and all columns of a row group receive the same number
-of rows ("All columns must be written the same number of rows before closing or starting a new
-row group", carquet.h). -/
+hold what the counts say (`HistWF`, `BatchOk`: one definition level ≤ 1 per entry for OPTIONAL and
+REPEATED — 0 = null / empty list, 1 = value / list element —, one repetition level ≤ 1 per entry when
+a rep_levels array is passed, as many dense values as entries with definition level 1 — an entry
+with definition level 0 carries no value —, every value a PLAIN bit pattern of the column's type —
+BOOLEAN one byte 0 / 1, BYTE_ARRAY shorter than 2^31);
+all columns of a row group receive the same number of rows ("All columns must be written the same
+number of rows before closing or starting a new row group", carquet.h), where the rows of a
+REPEATED column are its entries with repetition level 0 (`ColData.recs`; a NULL rep_levels pointer
+makes every entry a row);
+and what a REPEATED column receives in a row group begins with repetition level 0 — a row group
+begins with a new row (`FirstRepZero`).  All three are decidable from the history alone. -/
 structure HistOk (cols : List Col) (ops : List Op) : Prop where
   wf : HistWF ops
   batches : ∀ b, Op.batch b ∈ ops → ∀ c, cols[b.col]? = some c → BatchOk c b
-  aligned : ∀ g ∈ tableOf cols ops, ∀ d ∈ g, d.rows = (g.map (·.rows)).headD 0
+  aligned : ∀ g ∈ tableOf cols ops, ∀ n ∈ List.zipWith (fun (c : Col) (d : ColData) => d.recs c.maxRep) cols g,
+    n = firstRecs cols g
+  firstRep : ∀ g ∈ tableOf cols ops, ∀ cd ∈ List.zip cols g, FirstRepZero cd.1 cd.2
 
 /-- The written file is small enough for the C integer types in which carquet keeps its numbers
 (the model computes in unbounded `Nat`, so it speaks for the C code only under these): the file is
@@ -60,8 +68,8 @@ theorem C05_spec_reader_accepts_writer
     Spec.File.read (fileOf (deps []) cols codec pageSize "Carquet" ops).1 (strictTiling := true)
       = .ok (specTableOf cols ops) :=
   have hf := run_facts (deps []) (goodPred []) cols codec pageSize "Carquet" ops hhist.wf hhist.batches hok
-  read_written [] codec hcodec cols hschema.nonEmpty hschema.colsOk ops "Carquet" _ _ _ hf hhist.aligned
-    (runSmall_of_output [] (goodPred []) codec hcodec cols ops _ _ _ hf hschema.small hsize) []
+  read_written [] codec hcodec cols hschema.nonEmpty hschema.colsOk ops "Carquet" _ _ _ hf hhist.aligned hhist.firstRep
+    (runSmall_of_output [] codec hcodec cols ops _ _ _ hf hschema.small hsize) []
 
 /-- The same under the size conditions in their direct form (`RunSmall`: the footer data within
 the limits `footerOk`, the footer shorter than 4 GiB, every page's uncompressed body, stored body and
@@ -77,7 +85,7 @@ theorem C05_spec_reader_accepts_writer_sizes
       = .ok (specTableOf cols ops) :=
   read_written [] codec hcodec cols hne hcols ops "Carquet" _ _ _
     (run_facts (deps []) (goodPred []) cols codec pageSize "Carquet" ops hhist.wf hhist.batches hok)
-    hhist.aligned hsize []
+    hhist.aligned hhist.firstRep hsize []
 
 /-! ### the stages, as statements of their own -/
 
@@ -93,19 +101,20 @@ theorem C05_spec_reader_reads_page (codec : Nat) (hcodec : codec = 0 ∨ codec =
            (r.bytes (deps [])).length, rest⟩ ∧
     File.decodeDataPage (leafOf c) none ⟨r.rows, 0, 3, 3, r.stats.map statsMetaOf⟩ r.body =
       .ok (specChunkOf c (pageData r.src)) :=
-  page_written [] cfg codec hcodec c (maxRep_of_colOk hc) (maxDef_le_one c) r hf rest
+  page_written [] cfg codec hcodec c (maxRep_lt c) (maxDef_le_one c) r hf rest
 
 /-- **One column chunk** (the single-chunk statement): the bytes of a chunk — the concatenation of
 `header ++ stored body` of ANY list of such page records, reachable by the writer or not — are read
 by the reader's chunk stage, page after page to the last byte, to the column's entries; the value
 count is the chunk's `num_values`. -/
 theorem C05_spec_reader_reads_chunk (codec : Nat) (hcodec : codec = 0 ∨ codec = 1 ∨ codec = 5 ∨ codec = 7)
-    (c : Col) (hc : ColOk c) (ps : List PageRec) (h : ∀ r ∈ ps, PageFacts [] codec c r) (m : File.ColumnMeta)
+    (c : Col) (hc : ColOk c) (ps : List PageRec) (h : ∀ r ∈ ps, PageFacts [] codec c r)
+    (hfirst : FirstRepZero c (pagesData ps)) (m : File.ColumnMeta)
     (henc : m.encodings = [0, 3]) (hmc : m.codec = codec) (hd : m.dictionaryPageOffset = none)
     (hnv : m.numValues = Carquet.Proofs.WriterPages.sumRows ps) (start : Nat) (cfg : File.Config) :
     File.readChunk cfg (leafOf c) m start (Carquet.Proofs.WriterPages.pagesBytes (deps []) ps) =
       .ok (specChunkOf c (pagesData ps)) :=
-  readChunk_written [] cfg codec hcodec c (maxRep_of_colOk hc) (maxDef_le_one c) ps h m henc hmc hd hnv start
+  readChunk_written [] cfg codec hcodec c (maxRep_lt c) (maxDef_le_one c) ps h hfirst m henc hmc hd hnv start
 
 /-- **The footer.**  For footer data within the limits (`footerOk`), the footer carquet writes is
 parsed by the independent reader — generic compact-protocol decoder, then extraction with the
@@ -122,10 +131,10 @@ private def exPage : Page :=
   { values := [[1, 0, 0, 0], [2, 0, 0, 0]], defs := [1, 0, 1], numValues := 3, numNulls := 1,
     minMax := some ([1, 0, 0, 0], [2, 0, 0, 0]) }
 
-example : ColOk exCol := ⟨by decide, by decide⟩
+example : ColOk exCol := ⟨by decide⟩
 example : PageFacts [] 1 exCol (pageRecOf (deps []) 1 exCol exPage) :=
   ⟨rfl, ⟨by decide +kernel, by decide⟩,
-   ⟨by decide, by decide, by decide, by decide, by decide, by decide, by decide, by decide +kernel⟩,
+   ⟨by decide, by decide, by decide, by decide, by decide, by decide, by decide, by decide +kernel, by decide, by decide⟩,
    ⟨by decide +kernel, by decide +kernel, by decide⟩⟩
 
 example : Carquet.Proofs.FileRealFooter.footerOk
@@ -136,25 +145,27 @@ statistics, REQUIRED BOOLEAN), Snappy-compressed, satisfies every hypothesis -/
 
 private def exCols : List Col := [⟨"a", .int32, .optional, 0⟩, ⟨"b", .boolean, .required, 0⟩]
 private def exOps : List Op :=
-  [.batch ⟨0, 3, some [1, 0, 1], [[1, 0, 0, 0], [2, 0, 0, 0]]⟩, .batch ⟨1, 3, none, [[1], [0], [1]]⟩, .newRowGroup,
-   .batch ⟨0, 1, none, [[7, 0, 0, 0]]⟩, .batch ⟨1, 1, none, [[0]]⟩]
+  [.batch ⟨0, 3, some [1, 0, 1], [[1, 0, 0, 0], [2, 0, 0, 0]], none⟩, .batch ⟨1, 3, none, [[1], [0], [1]], none⟩, .newRowGroup,
+   .batch ⟨0, 1, none, [[7, 0, 0, 0]], none⟩, .batch ⟨1, 1, none, [[0]], none⟩]
 
 private theorem exSchemaOk : SchemaOk exCols :=
   ⟨by decide, fun c hc => by
     simp only [exCols, List.mem_cons, List.mem_nil_iff, or_false] at hc
-    rcases hc with rfl | rfl <;> exact ⟨by decide, by decide⟩,
+    rcases hc with rfl | rfl <;> exact ⟨by decide⟩,
    ⟨by decide, by decide +kernel, by decide⟩⟩
 
 private theorem exHistOk : HistOk exCols exOps := by
-  refine ⟨?_, ?_, by decide +kernel⟩
+  refine ⟨?_, ?_, by decide +kernel, by decide +kernel⟩
   · intro b hb
     simp only [exOps, List.mem_cons, Op.batch.injEq, List.mem_nil_iff, or_false, reduceCtorEq, false_or] at hb
-    rcases hb with h | h | h | h <;> subst h <;> exact ⟨by decide, by intro ds h; cases h <;> rfl⟩
+    rcases hb with h | h | h | h <;> subst h <;>
+      exact ⟨by decide, by intro ds h; cases h <;> rfl, (by intro rs h; cases h)⟩
   · intro b hb c hc
     simp only [exOps, List.mem_cons, Op.batch.injEq, List.mem_nil_iff, or_false, reduceCtorEq, false_or] at hb
     rcases hb with h | h | h | h <;> subst h <;>
       simp only [exCols, List.getElem?_cons_zero, List.getElem?_cons_succ, Option.some.injEq] at hc <;> subst hc <;>
-      exact ⟨by decide, by intro ds h; cases h <;> rfl, by intro _ ds h; cases h <;> decide, by decide⟩
+      exact ⟨by decide, by intro ds h; cases h <;> rfl, by intro _ ds h; cases h <;> decide, by decide,
+        (by intro rs h; cases h), (by intro _ rs h; cases h)⟩
 
 private theorem exSizesOk : FileSizesOk exCols 1 64 exOps := ⟨by decide +kernel, by decide +kernel, by decide +kernel⟩
 
@@ -171,5 +182,116 @@ example : (specTableOf exCols exOps).rowGroups =
     [⟨[[⟨0, 1, some [1, 0, 0, 0]⟩, ⟨0, 0, none⟩, ⟨0, 1, some [2, 0, 0, 0]⟩],
        [⟨0, 0, some [1]⟩, ⟨0, 0, some [0]⟩, ⟨0, 0, some [1]⟩]]⟩,
      ⟨[[⟨0, 1, some [7, 0, 0, 0]⟩], [⟨0, 0, some [0]⟩]]⟩] := by decide +kernel
+
+/-! ### non-vacuity for REPEATED columns: a REPEATED INT32 column first (lists [1,2], [], [3,4] — the
+second batch continues the last list, i.e. a batch, and with page size 1 a page, ends inside a row —
+then two one-element lists written with NULL level pointers) next to a REQUIRED column, two row
+groups, LZ4_RAW -/
+
+def rpCols : List Col := [⟨"l", .int32, .repeated, 0⟩, ⟨"k", .int32, .required, 0⟩]
+def rpOps : List Op :=
+  [.batch ⟨0, 4, some [1, 1, 0, 1], [[1, 0, 0, 0], [2, 0, 0, 0], [3, 0, 0, 0]], some [0, 1, 0, 0]⟩,
+   .batch ⟨0, 1, none, [[4, 0, 0, 0]], some [1]⟩,
+   .batch ⟨1, 3, none, [[10, 0, 0, 0], [11, 0, 0, 0], [12, 0, 0, 0]], none⟩, .newRowGroup,
+   .batch ⟨0, 2, none, [[5, 0, 0, 0], [6, 0, 0, 0]], none⟩,
+   .batch ⟨1, 2, none, [[13, 0, 0, 0], [14, 0, 0, 0]], none⟩]
+
+theorem rpSchemaOk : SchemaOk rpCols :=
+  ⟨by decide, fun c hc => by
+    simp only [rpCols, List.mem_cons, List.mem_nil_iff, or_false] at hc
+    rcases hc with rfl | rfl <;> exact ⟨by decide⟩,
+   ⟨by decide, by decide +kernel, by decide⟩⟩
+
+theorem rpHistOk : HistOk rpCols rpOps := by
+  refine ⟨?_, ?_, by decide +kernel, by decide +kernel⟩
+  · intro b hb
+    simp only [rpOps, List.mem_cons, Op.batch.injEq, List.mem_nil_iff, or_false, reduceCtorEq, false_or] at hb
+    rcases hb with h | h | h | h | h <;> subst h <;>
+      exact ⟨by decide, (by intro ds h; cases h <;> rfl), (by intro rs h; cases h <;> rfl)⟩
+  · intro b hb c hc
+    simp only [rpOps, List.mem_cons, Op.batch.injEq, List.mem_nil_iff, or_false, reduceCtorEq, false_or] at hb
+    rcases hb with h | h | h | h | h <;> subst h <;>
+      simp only [rpCols, List.getElem?_cons_zero, List.getElem?_cons_succ, Option.some.injEq] at hc <;> subst hc <;>
+      exact ⟨by decide, (by intro ds h; cases h <;> rfl), (by intro _ ds h; cases h <;> decide), by decide,
+        (by intro rs h; cases h <;> rfl), (by intro _ rs h; cases h <;> decide)⟩
+
+theorem rpSizesOk : FileSizesOk rpCols 7 1 rpOps := ⟨by decide +kernel, by decide +kernel, by decide +kernel⟩
+
+theorem rpAllOk : ((fileOf (deps []) rpCols 7 1 "Carquet" rpOps).2.all (· == .ok)) = true := by decide +kernel
+
+/-- the theorem applied: the independent reader accepts the file with the REPEATED column -/
+example : Spec.File.read (fileOf (deps []) rpCols 7 1 "Carquet" rpOps).1 (strictTiling := true) =
+    .ok (specTableOf rpCols rpOps) :=
+  C05_spec_reader_accepts_writer rpCols 7 1 rpOps (by decide) rpSchemaOk rpHistOk rpSizesOk
+    (fun s hs => by simpa using List.all_eq_true.mp rpAllOk s hs)
+
+/-- its table: three rows [1,2], [], [3,4] in the first row group (five entries), [5], [6] in the second -/
+example : (specTableOf rpCols rpOps).rowGroups =
+    [⟨[[⟨0, 1, some [1, 0, 0, 0]⟩, ⟨1, 1, some [2, 0, 0, 0]⟩, ⟨0, 0, none⟩, ⟨0, 1, some [3, 0, 0, 0]⟩, ⟨1, 1, some [4, 0, 0, 0]⟩],
+       [⟨0, 0, some [10, 0, 0, 0]⟩, ⟨0, 0, some [11, 0, 0, 0]⟩, ⟨0, 0, some [12, 0, 0, 0]⟩]]⟩,
+     ⟨[[⟨0, 1, some [5, 0, 0, 0]⟩, ⟨0, 1, some [6, 0, 0, 0]⟩],
+       [⟨0, 0, some [13, 0, 0, 0]⟩, ⟨0, 0, some [14, 0, 0, 0]⟩]]⟩] := by decide +kernel
+
+/-- the rows per row group (`num_rows`): 3 and 2, not the 5 and 2 level entries of column 0 -/
+example : (tableOf rpCols rpOps).map (firstRecs rpCols) = [3, 2] := by decide +kernel
+
+/-! ### regression F64: the pinned code counted one row per level ENTRY of a REPEATED first column
+
+`carquet_writer_write_batch` did `if (column_index == 0) current_row_group_rows += num_values`.
+Witness (corpus/C05/fixed-F64-repeated-first-column-rows.ops): one REPEATED INT32 column, one batch
+holding ONE row, the list [1, 2] (two entries, repetition levels 0 1).  Every call returned OK; the
+footer said `num_rows = 2`; the independent reader rejects the file. -/
+
+private def f62Cols : List Col := [⟨"c0", .int32, .repeated, 0⟩]
+private def f62Ops : List Op := [.batch ⟨0, 2, some [1, 1], [[1, 0, 0, 0], [2, 0, 0, 0]], some [0, 1]⟩]
+/-- the FileMetaData the pinned code assembled: one row group, `num_rows` 2 -/
+private def f62Md : FooterData := ⟨f62Cols, "Carquet", 2, [⟨2, 59, 4, 59, 0, [⟨4, .int32, 0, 2, 59, 20, "c0"⟩]⟩]⟩
+
+private theorem f62_split :
+    File.splitFile (fileOfPreFixF64 (deps []) f62Cols 0 1048576 "Carquet" f62Ops).1 = .ok (63, FileReal.footer f62Md) := by
+  decide +kernel
+
+private theorem f62_rowGroups :
+    File.readRowGroups ⟨true, []⟩ (fileOfPreFixF64 (deps []) f62Cols 0 1048576 "Carquet" f62Ops).1 63
+      (f62Cols.map leafOf) (f62Md.rowGroups.map rgMetaOf) 4 = .error .rowGroupRowCountMismatch := by
+  decide +kernel
+
+/-- **Regression F64** (pinned code, kernel-checked): every call of the witness history returned OK
+and the independent reader rejects the file — the row group claims 2 rows, its only column holds 1. -/
+theorem C05_regression_F64 :
+    (fileOfPreFixF64 (deps []) f62Cols 0 1048576 "Carquet" f62Ops).2 = [.ok, .ok] ∧
+    Spec.File.read (fileOfPreFixF64 (deps []) f62Cols 0 1048576 "Carquet" f62Ops).1 (strictTiling := true) =
+      .error .rowGroupRowCountMismatch := by
+  refine ⟨by decide +kernel, ?_⟩
+  have hfooter := parseFooter_written f62Md (by decide +kernel)
+  have hschema := schemaOf_written f62Cols (by decide)
+  have hleaves := columnsOf_written f62Cols (by decide) (fun c hc => by
+    simp only [f62Cols, List.mem_cons, List.mem_nil_iff, or_false] at hc; subst hc; exact ⟨by decide⟩)
+  have hc : f62Md.cols = f62Cols := rfl
+  unfold File.read File.readWith
+  simp only [f62_split, bind, Except.bind, hfooter, fileMetaOfWritten, hc, hschema, hleaves, f62_rowGroups]
+
+/-- the repaired writer on the same history: accepted, one row -/
+example : Spec.File.read (fileOf (deps []) f62Cols 0 1048576 "Carquet" f62Ops).1 (strictTiling := true) =
+    .ok (specTableOf f62Cols f62Ops) :=
+  C05_spec_reader_accepts_writer f62Cols 0 1048576 f62Ops (by decide)
+    ⟨by decide, fun c hc => by
+      simp only [f62Cols, List.mem_cons, List.mem_nil_iff, or_false] at hc; subst hc; exact ⟨by decide⟩,
+     ⟨by decide, by decide +kernel, by decide⟩⟩
+    ⟨fun b hb => by
+      simp only [f62Ops, List.mem_cons, Op.batch.injEq, List.mem_nil_iff, or_false] at hb; subst hb
+      exact ⟨by decide, (by intro ds h; cases h <;> rfl), (by intro rs h; cases h <;> rfl)⟩,
+     fun b hb c hc => by
+      simp only [f62Ops, List.mem_cons, Op.batch.injEq, List.mem_nil_iff, or_false] at hb; subst hb
+      simp only [f62Cols, List.getElem?_cons_zero, Option.some.injEq] at hc; subst hc
+      exact ⟨by decide, (by intro ds h; cases h <;> rfl), (by intro _ ds h; cases h <;> decide), by decide,
+        (by intro rs h; cases h <;> rfl), (by intro _ rs h; cases h <;> decide)⟩,
+     by decide +kernel, by decide +kernel⟩
+    ⟨by decide +kernel, by decide +kernel, by decide +kernel⟩
+    (fun s hs => by
+      have : ((fileOf (deps []) f62Cols 0 1048576 "Carquet" f62Ops).2.all (· == .ok)) = true := by decide +kernel
+      simpa using List.all_eq_true.mp this s hs)
+
+example : (tableOf f62Cols f62Ops).map (firstRecs f62Cols) = [1] := by decide +kernel
 
 end Carquet.Properties.C05
